@@ -39,7 +39,8 @@ TITLES = {
     "A": ["~A", "~a", "~ASCII", "~ascii", "~A Log data section"],
 }
 BODIES = ["one", "empty", "two", "trailing_blank", "trailing_comment", "title_only"]
-OBODIES = [["free text line"], [], ["line one", "", "line three"], ["#not a comment here", "X. 1 : looks like an item"]]
+OBODIES = [["free text line"], [], ["line one", "", "line three"], ["#not a comment here", "X. 1 : looks like an item"],
+           ["Shift applied: ~0.5 m", "see ~Well above (a tilde inside a line does not start a section)"]]
 DECOYS = [None] + [[s, m] for s in "CPX" for m in ("VERS", "WRAP", "NULL", "DLM")] + [["W", "DLM"], ["W", "WRAP"], ["W", "VERS"], ["V", "NULL"]]
 DECOY_VALUE = {"VERS": "1.2", "WRAP": "YES", "NULL": "10.0", "DLM": "COMMA"}
 
@@ -54,7 +55,8 @@ def axes():
         ax.append(("t" + s, list(range(len(TITLES[s])))))
     for s in "VWCPX":
         ax.append(("b" + s, [0, 1, 2, 3, 4] + ([5] if s == "C" else [])))   # 5: ~C is its title line only (no curve declared)
-    ax.append(("bO", [0, 1, 2, 3]))
+    ax.append(("bO", [0, 1, 2, 3, 4]))
+    ax.append(("terse", [False, True]))       # extras of ~P / ~X / ~W written as period-less 'NAME : value' and colon-less 'NAME.U value' lines
     ax.append(("decoy", DECOYS))
     ax.append(("rows", [2, 3]))
     ax.append(("ignore_data", [False, True]))
@@ -129,7 +131,8 @@ def _items_for(sec, body, decoy, wnull=True, vers="2.0"):
     if kind == "title_only":
         items = []
     for k in range(min(n_extra, len(extra_names))):
-        items.append((extra_names[k], "", "val %s" % extra_names[k].lower(), "descr of %s" % extra_names[k]))
+        # (the second extra carries a tilde inside its value)
+        items.append((extra_names[k], "", ("val %s" if k == 0 else "~0.5 approx %s") % extra_names[k].lower(), "descr of %s" % extra_names[k]))
     if decoy and decoy[0] == sec:
         items.append((decoy[1], "", DECOY_VALUE[decoy[1]] if decoy[1] != "VERS" else {"2.0": "1.2", "1.2": "2.0"}[vers], "decoy"))
     noise = {"trailing_blank": [""], "trailing_comment": ["# a comment"]}.get(kind, [])
@@ -146,6 +149,21 @@ def build(pt):
         items, noise = _items_for(s, pt["b" + s], decoy, pt.get("wnull", True), vers)
         abstract[s] = items
         lines = []
+        if pt.get("terse") and s in "PX" and vers != "1.2":
+            # terse forms: a line without a period is NAME : VALUE (no unit, no description); a line without a colon has no description
+            terse_items = []
+            for k, (m, u, v, d) in enumerate(items):
+                if m in ("VERS", "WRAP", "NULL", "DLM"):
+                    terse_items.append((m, u, v, d))
+                    lines.append(lasgen.item_line(m, u, v, d))
+                elif k % 2 == 0:
+                    terse_items.append((m, "", v, ""))
+                    lines.append("%s : %s" % (m, v))
+                else:
+                    terse_items.append((m, "UU", v, ""))
+                    lines.append("%s.UU %s" % (m, v))
+            abstract[s] = terse_items
+            return [TITLES[s][pt["t" + s]]] + lines + noise
         for (m, u, v, d) in items:
             if s == "W" and vers == "1.2" and m not in ("STRT", "STOP", "STEP", "NULL"):
                 lines.append(lasgen.item_line(m, u, d, v))   # LAS 1.2 ~W layout: description first, value after the colon
